@@ -17,6 +17,7 @@ took (wall clock); the check pins that regime explicitly as one more generated b
 
 import importlib
 import os
+import gc
 import shutil
 import sys
 import tempfile
@@ -32,7 +33,7 @@ RULE = (
     "closure referring to itself, closures whose only instance is created by the history (factory at module "
     "level / a method / itself a closure), a function under two stacked decorators) x history (<=15 quick / <=40 thorough ops) of {activate probe by name | by reference, "
     "activate a path probe in which the target is only the enclosing call, deactivate innermost, call, resolve "
-    "reference, create the lazy closure instance} x codefind lookup regime (gc scan / cache). evaluations = "
+    "reference, create the lazy closure instance, execute the unchanged module again (only while no probe is active)} x codefind lookup regime (gc scan / cache). evaluations = "
     "operations applied. Non-trivial = a resolve or an activation by reference happens while >=1 other probe on "
     "the same function is active; distinct by (module text, history, regime)."
 )
@@ -349,6 +350,38 @@ def run_case(order, ks, ops, regime, rec=None):
         for op in ops:
             kind = op[0]
             t = op[1] if len(op) > 1 else None
+            if kind == "reimp":
+                # the module is executed again from the same, unchanged file (importlib.reload):
+                # every def creates a new function object - with code equal by value to the old
+                # one - and the old objects die; the same reference strings now designate the
+                # new functions.  Only done while no probe is active.
+                # (not under the pinned "cache" regime: forcing codefind to trust a cache that is
+                # keyed by code objects compared by value would make the outcome a statement
+                # about that forced setting)
+                if stack or regime != "scan":
+                    continue
+                done.append(op)
+                world = None
+                states.clear()
+                gc.collect()
+                importlib.reload(mod)
+                world = World(mod, ks)
+                gc.collect()
+                flags.add("module-executed-again")
+                old_refs, refs = refs, {}
+                for t2 in TARGETS:
+                    if not world.has(t2):
+                        continue
+                    states[t2] = HY.FnState(world.real(t2))
+                    pin()
+                    try:
+                        refs[t2] = refstring(world.handle(t2))
+                    except BaseException as e:
+                        raise PropertyViolation("refstring", f"refstring({t2}) raised {HY.describe_exc(e)} after the module was executed again\n{ctxt()}",
+                                                extra={"bucket": "refstring:" + t2})
+                    if old_refs.get(t2) != refs[t2]:
+                        raise PropertyViolation("refstring", f"refstring({t2}) changed from {old_refs.get(t2)!r} to {refs[t2]!r} when the unchanged module was executed again\n{ctxt()}")
+                continue
             if kind == "make":
                 # the closure's one and only instance comes to life now - possibly while its
                 # factory is instrumented
@@ -498,6 +531,7 @@ def strategy(max_ops):
         st.tuples(st.just("resolve"), tgt),
         st.tuples(st.just("resolve"), tgt),
         st.tuples(st.just("make"), st.sampled_from(["lfun", "lfun2", "lfun3", "lfun4"])),
+        st.tuples(st.just("reimp")),
     )
 
     @st.composite
